@@ -555,7 +555,7 @@ def r024(an, rep, V, f, arms, env):
 # Places where the decoder stops with an exception, confirmed by reading: (function, exception) -> (how many, why / which rule decides reachability).
 DECODER_REJECTIONS = {
     ("code_data._blocks::bytes_to_blocks", "NotImplementedError"):
-        (2, "a later code unit of an instruction has its own line-table entry: reachable, decided (and listed as a known finding) by C01's R01.A; a jump target that is not the first code unit "
+        (3, "a byte that is not an opcode: the compiler only writes defined opcodes (C11's R11.O decides the test); a later code unit of an instruction has its own line-table entry: reachable, decided (and listed as a known finding) by C01's R01.A; a jump target that is not the first code unit "
             "of an instruction: CPython's assembler resolves jumps to the first unit of the target instruction (compiler contract), C13's R13.6 decides the test itself"),
     ("code_data._code_data::to_code_data", "NotImplementedError"):
         (2, "co_nlocals != len(co_varnames): the compiler sets co_nlocals from the length of the varnames tuple; two free variables of the same name: the compiler's symbol table "
